@@ -495,6 +495,10 @@ class Generator(AbstractODSGenerator):
 
     def __generate_asset(self, computed_data: ComputedData, output_file: Any, summary_row_index: int) -> int:
         asset: str = computed_data.asset
+        # Transactions are identified by their spreadsheet row, which is unique only within one asset: start from an empty
+        # transaction -> row map for every asset (the map used to be a class-level dictionary shared by all assets, so a
+        # transaction hidden by the date filter was linked to the row of another asset's transaction with the same row number)
+        self.__in_out_sheet_transaction_2_row = {}
         transaction_sheet_name: str = self.get_in_out_sheet_name(asset)
         output_sheet_name: str = self.get_tax_sheet_name(asset)
 
